@@ -91,7 +91,8 @@ type world struct {
 	// e2e mode
 	e2e *e2eWorld
 	// ledger for the implementation-level oracle
-	led ledger
+	led               ledger
+	lastCommitMembers []member
 }
 
 func kindOf(k uint64) params.ValidatorKind {
